@@ -228,6 +228,13 @@ func ntLockDiscipline() (bad []string, readers []string) {
 		}
 	}
 	sort.Strings(bad)
+	uniq := bad[:0]
+	for i, b := range bad {
+		if i == 0 || b != bad[i-1] {
+			uniq = append(uniq, b)
+		}
+	}
+	bad = uniq
 	sort.Strings(readers)
 	return
 }
